@@ -86,7 +86,8 @@ class _mpf(mpnumeric):
         if isinstance(x, int_types): return from_int(x)
         if isinstance(x, float): return from_float(x)
         if isinstance(x, basestring): return from_str(x, prec, rounding)
-        if isinstance(x, cls.context.constant): return x.func(prec, rounding)
+        # (also a constant of another context: it has no value of its own)
+        if isinstance(x, _constant): return x.func(prec, rounding)
         if hasattr(x, '_mpf_'): return x._mpf_
         if isinstance(x, rational.mpq):
             p, q = x._mpq_
@@ -695,6 +696,9 @@ class PythonMPContext(object):
                 return ctx.make_mpf(_mpf_)
             except ValueError:
                 pass
+        if isinstance(x, _constant):
+            # a constant of another context: evaluated in this one
+            return ctx.make_mpf(x.func(prec, rounding))
         if hasattr(x, '_mpf_'): return ctx.make_mpf(x._mpf_)
         if hasattr(x, '_mpc_'): return ctx.make_mpc(x._mpc_)
         if hasattr(x, '_mpmath_'):
